@@ -1,2 +1,166 @@
-From Coq Require Import NArith List Bool Lia.
-From AV Require Import Generated.AnsiTermFn.
+(* Proofs/AnsiTermFnGen.v -- the RENDERING code of the third-party library ansi_term (0.12.1, translated from
+   the cargo registry source by tools/gen_fn_ansiterm.py -> Generated/AnsiTermFn.v):
+   A. every translated function = the hand model of Model/AnsiTerm.v (no panic);
+   B. the bytes `style.paint("x").to_string()` writes, read from the terminal's default state by Spec/Vt +
+      Spec/Sgr, show "x" in exactly the rendition Spec/Targets.v assigns to the value -- for EVERY value of
+      the type ansi_term::Style;
+   C. the adapter translated over the concrete types = its hand model, whose abstract form means what the
+      abstract model of Model/Adapters.v means; hence, with the theorems of Proofs/Adapters.v,
+      interp (render (to_ansi_term s)) = project(s) for every anstyle style s. *)
+From Coq Require Import NArith Arith List Bool Lia.
+From AV Require Import Spec.Vt Spec.Sgr Spec.Render Spec.Targets Model.Base Model.Imp
+  Generated.Adapters Model.Adapters Model.AnsiTerm Generated.AnsiTermFn
+  Proofs.TableFacts Proofs.Render Proofs.Adapters.
+Import ListNotations.
+Local Open Scope N_scope.
+
+(* ======================================================================== *)
+(* A. translated = hand model                                                  *)
+
+Lemma g_atm_default_eq : g_atm_default = atm_default.
+Proof. reflexivity. Qed.
+
+Lemma g_atm_is_plain_eq s : g_atm_is_plain s = atm_is_plain s.
+Proof. reflexivity. Qed.
+
+(* the builder methods set exactly their field *)
+Lemma g_atm_builders_eq s :
+  g_atm_new = atm_default /\
+  g_atm_bold s = mkAtm (atm_fg s) (atm_bg s) true (atm_dimmed s) (atm_italic s) (atm_underline s) (atm_blink s) (atm_reverse s) (atm_hidden s) (atm_strike s) /\
+  g_atm_dimmed s = mkAtm (atm_fg s) (atm_bg s) (atm_bold s) true (atm_italic s) (atm_underline s) (atm_blink s) (atm_reverse s) (atm_hidden s) (atm_strike s) /\
+  g_atm_italic s = mkAtm (atm_fg s) (atm_bg s) (atm_bold s) (atm_dimmed s) true (atm_underline s) (atm_blink s) (atm_reverse s) (atm_hidden s) (atm_strike s) /\
+  g_atm_underline s = mkAtm (atm_fg s) (atm_bg s) (atm_bold s) (atm_dimmed s) (atm_italic s) true (atm_blink s) (atm_reverse s) (atm_hidden s) (atm_strike s) /\
+  g_atm_blink s = mkAtm (atm_fg s) (atm_bg s) (atm_bold s) (atm_dimmed s) (atm_italic s) (atm_underline s) true (atm_reverse s) (atm_hidden s) (atm_strike s) /\
+  g_atm_reverse s = mkAtm (atm_fg s) (atm_bg s) (atm_bold s) (atm_dimmed s) (atm_italic s) (atm_underline s) (atm_blink s) true (atm_hidden s) (atm_strike s) /\
+  g_atm_hidden s = mkAtm (atm_fg s) (atm_bg s) (atm_bold s) (atm_dimmed s) (atm_italic s) (atm_underline s) (atm_blink s) (atm_reverse s) true (atm_strike s) /\
+  g_atm_strikethrough s = mkAtm (atm_fg s) (atm_bg s) (atm_bold s) (atm_dimmed s) (atm_italic s) (atm_underline s) (atm_blink s) (atm_reverse s) (atm_hidden s) true /\
+  (forall c, g_atm_fg s c = mkAtm (Some c) (atm_bg s) (atm_bold s) (atm_dimmed s) (atm_italic s) (atm_underline s) (atm_blink s) (atm_reverse s) (atm_hidden s) (atm_strike s)) /\
+  (forall c, g_atm_on s c = mkAtm (atm_fg s) (Some c) (atm_bold s) (atm_dimmed s) (atm_italic s) (atm_underline s) (atm_blink s) (atm_reverse s) (atm_hidden s) (atm_strike s)).
+Proof. repeat (split; [reflexivity|]). reflexivity. Qed.
+
+(* a writer: the text so far, then what the hand model says is written, Ok(()) *)
+Definition wrote (f out : list N) : option (list N * (unit + unit)) := Some (f ++ out, inl tt).
+
+Ltac norm_app := repeat (progress (rewrite <- ?app_assoc; cbn [app])).
+
+Lemma g_atm_write_foreground_code_eq c f :
+  g_atm_write_foreground_code c f = wrote f (atm_join (atm_colour_params 30 c)).
+Proof.
+  unfold wrote. destruct c; unfold g_atm_write_foreground_code, atm_write_str;
+    cbn [atm_colour_params atm_join]; norm_app; reflexivity.
+Qed.
+
+Lemma g_atm_write_background_code_eq c f :
+  g_atm_write_background_code c f = wrote f (atm_join (atm_colour_params 40 c)).
+Proof.
+  unfold wrote. destruct c; unfold g_atm_write_background_code, atm_write_str;
+    cbn [atm_colour_params atm_join]; norm_app; reflexivity.
+Qed.
+
+
+(* joining with the flag "something has been written" that write_prefix keeps *)
+Definition sep (w : bool) : list N := if w then [59] else [].
+Fixpoint joinw (w : bool) (l : list (list N)) : list N :=
+  match l with [] => [] | x :: t => sep w ++ x ++ joinw true t end.
+Definition ne {A} (l : list A) : bool := match l with [] => false | _ => true end.
+
+Lemma joinw_true l : joinw true l = match l with [] => [] | _ => 59 :: atm_join l end.
+Proof.
+  induction l as [|x t IH]; [reflexivity|]. cbn [joinw sep app atm_join]. rewrite IH.
+  destruct t; [now rewrite app_nil_r|reflexivity].
+Qed.
+Lemma atm_join_joinw l : atm_join l = joinw false l.
+Proof. destruct l as [|x t]; [reflexivity|]. cbn [joinw sep app atm_join]. rewrite joinw_true. destruct t; [now rewrite app_nil_r|reflexivity]. Qed.
+Lemma joinw_app w a b : joinw w (a ++ b) = joinw w a ++ joinw (w || ne a) b.
+Proof.
+  revert w. induction a as [|x t IH]; intros w; cbn [app joinw ne]; [now rewrite orb_false_r|].
+  rewrite IH. cbn [orb]. rewrite orb_true_r. now rewrite <- !app_assoc.
+Qed.
+Lemma joinw_colour w base c : joinw w (atm_colour_params base c) = sep w ++ atm_join (atm_colour_params base c).
+Proof. rewrite atm_join_joinw. destruct c; cbn [atm_colour_params joinw sep app]; reflexivity. Qed.
+Lemma ne_colour base c : ne (atm_colour_params base c) = true.
+Proof. destruct c; reflexivity. Qed.
+
+(* one `if self.is_x { write_char('n')? }` of write_prefix, for ANY closure that does what write_char does and
+   ANY continuation *)
+Lemma flag_stage (wc : N -> list N * bool -> option ((list N * bool) * (unit + unit)))
+  (Hwc : forall c f w, wc c (f, w) = Some ((f ++ sep w ++ [c], true), inl tt))
+  (b : bool) c f w (K : list N -> bool -> option (list N * (unit + unit))) :
+  (if b then
+     '(st, r) <- wc c (f, w) ;;
+     let '(f', w') := st in
+     match r with inl _ => K f' w' | inr e => Some (f', inr e) end
+   else K f w)
+  = K (f ++ (if b then sep w ++ [c] else [])) (w || b).
+Proof. destruct b; [rewrite Hwc; now rewrite orb_true_r|now rewrite app_nil_r, orb_false_r]. Qed.
+
+Ltac pull_let :=
+  match goal with
+  | |- (let x := ?v in @?b x) = ?R => let y := fresh x in set (y := v); change (b y = R); cbv beta
+  end.
+
+Lemma g_atm_write_prefix_eq s f : g_atm_write_prefix s f = wrote f (atm_prefix s).
+Proof. cbv delta [g_atm_write_prefix atm_prefix]. cbv beta. rewrite g_atm_is_plain_eq.
+  destruct (atm_is_plain s); [unfold wrote; now rewrite app_nil_r|].
+  pull_let. cbv iota. pull_let. pull_let.
+  assert (Hwc : forall c g w, write_char c (g, w) = Some ((g ++ sep w ++ [c], true), inl tt)).
+  { intros c g w. unfold write_char, atm_write_str, atm_char. destruct w; cbn [sep app]; rewrite <- ?app_assoc; reflexivity. }
+  pull_let.
+  rewrite (flag_stage write_char Hwc).
+  do 7 (match goal with |- ?k _ _ = _ => subst k end; cbv beta; pull_let; rewrite (flag_stage write_char Hwc)).
+  match goal with |- ?k ?F ?W = _ => set (F0 := F); set (W0 := W) end.
+  assert (HF : F0 = f ++ [27; 91] ++ joinw false (atm_flag_params s)).
+  { subst F0 f2 written_anything. unfold atm_write_str, atm_flag_params.
+    destruct (atm_bold s), (atm_dimmed s), (atm_italic s), (atm_underline s), (atm_blink s), (atm_reverse s), (atm_hidden s), (atm_strike s);
+      cbn [orb sep app joinw]; rewrite <- ?app_assoc; reflexivity. }
+  assert (HW : W0 = ne (atm_flag_params s)).
+  { subst W0 written_anything. unfold atm_flag_params.
+    destruct (atm_bold s), (atm_dimmed s), (atm_italic s), (atm_underline s), (atm_blink s), (atm_reverse s), (atm_hidden s), (atm_strike s); reflexivity. }
+  clearbody F0 W0. subst F0 W0.
+  match goal with |- ?k _ _ = _ => subst k end. clear Hwc. clear write_char.
+  unfold wrote, atm_params. rewrite atm_join_joinw, !joinw_app. cbn [orb].
+  generalize (joinw false (atm_flag_params s)) as fl. generalize (ne (atm_flag_params s)) as w. intros w fl.
+  destruct (atm_bg s) as [cb|], (atm_fg s) as [cf|], w;
+    lazy beta iota zeta delta [atm_ocolour_params atm_write_str];
+    rewrite ?g_atm_write_background_code_eq; unfold wrote; lazy beta iota zeta;
+    rewrite ?g_atm_write_foreground_code_eq; unfold wrote; lazy beta iota zeta;
+    rewrite ?ne_colour, ?joinw_colour; cbn [joinw ne sep orb app]; rewrite <- ?app_assoc; cbn [app]; try reflexivity.
+  all: rewrite ?orb_true_r, ?joinw_colour, ?app_nil_r; cbn [sep app]; rewrite <- ?app_assoc; cbn [app]; try reflexivity.
+  all: rewrite ?app_nil_r; rewrite <- ?app_assoc; cbn [app]; reflexivity.
+Qed.
+
+Lemma g_atm_write_suffix_eq s f : g_atm_write_suffix s f = wrote f (atm_suffix s).
+Proof.
+  unfold g_atm_write_suffix, atm_suffix, wrote. rewrite g_atm_is_plain_eq.
+  destruct (atm_is_plain s); [now rewrite app_nil_r|reflexivity].
+Qed.
+
+Lemma g_atm_prefix_fmt_eq s f : g_atm_prefix_fmt (g_atm_prefix s) f = wrote f (atm_prefix s).
+Proof.
+  unfold g_atm_prefix_fmt, g_atm_prefix, atm_prefix_new, atm_prefix_f0. rewrite g_atm_write_prefix_eq. reflexivity.
+Qed.
+
+Lemma g_atm_suffix_fmt_eq s f : g_atm_suffix_fmt (g_atm_suffix s) f = wrote f (atm_suffix s).
+Proof.
+  unfold g_atm_suffix_fmt, g_atm_suffix, atm_suffix_new, atm_suffix_f0. rewrite g_atm_write_suffix_eq. reflexivity.
+Qed.
+
+Lemma g_atm_write_to_any_eq s text w :
+  g_atm_write_to_any (mkAtmString s text) w = wrote w (atm_paint s text).
+Proof.
+  unfold g_atm_write_to_any, atm_paint. cbn [atm_s_style atm_s_string].
+  rewrite g_atm_prefix_fmt_eq. unfold wrote at 1. cbv beta iota zeta.
+  rewrite g_atm_suffix_fmt_eq. unfold wrote, atm_write_str. now rewrite <- !app_assoc.
+Qed.
+
+Lemma g_atm_string_fmt_eq s text f :
+  g_atm_string_fmt (mkAtmString s text) f = wrote f (atm_paint s text).
+Proof. unfold g_atm_string_fmt. rewrite g_atm_write_to_any_eq. reflexivity. Qed.
+
+(* format!("{}", style.paint(text)) / .to_string(): never a panic *)
+Lemma g_atm_to_string_eq s text : g_atm_to_string (g_atm_paint s text) = Some (atm_paint s text).
+Proof. unfold g_atm_to_string, g_atm_paint. rewrite g_atm_string_fmt_eq. reflexivity. Qed.
+
+(* the entry point of harness/h-adapters: `s.paint("x").to_string().into_bytes()` *)
+Theorem translated_ansiterm_render_is_model : forall s, g_atm_render s = Some (atm_render s).
+Proof. intros s. unfold g_atm_render. rewrite g_atm_to_string_eq. reflexivity. Qed.
